@@ -284,9 +284,34 @@ func ruleMultiplicity(r *Run) {
 				"lo.PartitionBy key is QueryPlanStep.URL: all requests of one level for one service travel in one Query call",
 				"the requests of a level are no longer grouped by the service URL of their step: one service receives several batched calls per level (and de-duplication no longer spans sibling steps)")
 			// the partitions must be the payload of the fan-out
-			call, _, _ := r.amrSite(ex)
-			if call == nil || call.Call.Args[0] != ssa.Value(c) {
-				r.Bad(rule, fnName(ex), "fan-out over URL groups", r.P.pos(c.Pos()), "the AsyncMapReduce fan-out of a level is not over the URL groups")
+			// — directly, or over the indexes lo.Range(len(groups)) with the worker taking
+			// groups[index] (each group at its own position)
+			call, mapF, _ := r.amrSite(ex)
+			okFan := call != nil && call.Call.Args[0] == ssa.Value(c)
+			if call != nil && !okFan && mapF != nil && len(mapF.Params) == 1 {
+				if rc, isCall := unwrap(call.Call.Args[0]).(*ssa.Call); isCall && strings.HasSuffix(calleeName(&rc.Call), "lo.Range") && len(rc.Call.Args) == 1 {
+					if lc, isLen := rc.Call.Args[0].(*ssa.Call); isLen {
+						if b, isB := lc.Call.Value.(*ssa.Builtin); isB && b.Name() == "len" && viaCell(lc.Call.Args[0]) == ssa.Value(c) {
+							// every use of the worker's index is groups[index]
+							okFan = true
+							for _, ref := range *mapF.Params[0].Referrers() {
+								ia, isIA := ref.(*ssa.IndexAddr)
+								if _, dbg := ref.(*ssa.DebugRef); dbg {
+									continue
+								}
+								if !isIA || ia.Index != ssa.Value(mapF.Params[0]) {
+									if st, isSt := ref.(*ssa.Store); isSt && st.Val == ssa.Value(mapF.Params[0]) {
+										continue // carried into the result for positional placement
+									}
+									okFan = false
+								}
+							}
+						}
+					}
+				}
+			}
+			if !okFan {
+				r.Bad(rule, fnName(ex), "fan-out over URL groups", r.P.pos(c.Pos()), "the AsyncMapReduce fan-out of a level is not over the URL groups (neither the groups themselves nor their indexes with one worker per group)")
 			}
 		}
 		if !found {
@@ -682,4 +707,29 @@ func maxHopsOnPath(fn *ssa.Function, hop map[ssa.Instruction]bool) (max int, inL
 		return memo[c]
 	}
 	return longest(comp[fn.Blocks[0]]), inLoop
+}
+
+// viaCell looks through a load of a local cell that is stored to exactly once (a variable
+// captured by a closure is spilled into such a cell): the stored value, else v itself.
+func viaCell(v ssa.Value) ssa.Value {
+	ld, ok := v.(*ssa.UnOp)
+	if !ok || ld.Op != token.MUL {
+		return v
+	}
+	al, ok := ld.X.(*ssa.Alloc)
+	if !ok {
+		return v
+	}
+	var val ssa.Value
+	n := 0
+	for _, ref := range *al.Referrers() {
+		if st, ok := ref.(*ssa.Store); ok && st.Addr == ssa.Value(al) {
+			n++
+			val = st.Val
+		}
+	}
+	if n == 1 {
+		return val
+	}
+	return v
 }
